@@ -296,6 +296,112 @@ func init() {
 			runSF(c, cases[idx].mk(), nil, "one-hot "+cases[idx].name)
 		}}
 	}
+	// sflow.magic: every 32-bit field of the datagram header, the sample headers and the standard records holding,
+	// alone, each of the values the sFlow specification (or a programmer) gives a meaning of its own: the "no / internal
+	// interface" value 0x3FFFFFFF and its neighbours, the two format bits of an interface word, sign and width
+	// boundaries. A value singled out for special treatment shows only when that very value is tried.
+	spaces["sflow.magic"] = func(tier string) mck.Space {
+		magic := []uint64{0x3FFFFFFF, 0x3FFFFFFE, 0x40000000, 0x40000001, 0x7FFFFFFF, 0x80000000, 0x80000001, 0xBFFFFFFF, 0xC0000000, 0xFFFFFFFE, 0x00FFFFFF, 0x01000000, 0x0000FFFF, 0x00010000, 1}
+		type mc struct {
+			name string
+			mk   func(v uint64) *ref.SFDatagram
+		}
+		var cases []mc
+		for i, n := range []string{"Seq", "SrcType", "SrcIdx", "Rate", "Pool", "Drops", "Input", "Output"} {
+			i := i
+			cases = append(cases, mc{"flowsample." + n, func(v uint64) *ref.SFDatagram {
+				sm := sfh.FlowSample(2, sfh.Rec("sw", 0))
+				w := uint32(v)
+				switch i {
+				case 0:
+					sm.Seq = w
+				case 1:
+					sm.SrcType = uint8(w)
+				case 2:
+					sm.SrcIdx = w & 0xffffff
+				case 3:
+					sm.Rate = w
+				case 4:
+					sm.Pool = w
+				case 5:
+					sm.Drops = w
+				case 6:
+					sm.Input = w
+				case 7:
+					sm.Output = w
+				}
+				return baseDG(false, sm)
+			}})
+		}
+		for i, n := range []string{"Seq", "SrcType", "SrcIdx"} {
+			i := i
+			cases = append(cases, mc{"countersample." + n, func(v uint64) *ref.SFDatagram {
+				sm := sfh.CounterSample(2, sfh.Rec("vlan", 0))
+				w := uint32(v)
+				switch i {
+				case 0:
+					sm.Seq = w
+				case 1:
+					sm.SrcType = uint8(w)
+				case 2:
+					sm.SrcIdx = w & 0xffffff
+				}
+				return baseDG(false, sm)
+			}})
+		}
+		for _, k := range []string{"sw", "gen", "eth", "tr", "vg", "vlan", "proc"} {
+			k := k
+			for i := 0; i < sfh.NFields(k); i++ {
+				i := i
+				cases = append(cases, mc{fmt.Sprintf("%s.%s", k, ref.Layouts[k].Names[i]), func(v uint64) *ref.SFDatagram {
+					r := sfh.Rec(k, 2)
+					if i < len(r.Vals) {
+						if ref.Layouts[k].Wide[i] {
+							r.Vals[i] = v<<32 | v
+						} else {
+							r.Vals[i] = v
+						}
+					}
+					if k == "sw" {
+						return baseDG(false, sfh.FlowSample(2, r))
+					}
+					return baseDG(false, sfh.CounterSample(2, r))
+				}})
+			}
+		}
+		for h, n := range []string{"SubID", "Seq", "Uptime"} {
+			h := h
+			cases = append(cases, mc{"header." + n, func(v uint64) *ref.SFDatagram {
+				d := &ref.SFDatagram{Agent: []byte{10, 0, 0, 1}, Samples: []ref.SFSample{sfh.CounterSample(2, sfh.Rec("proc", 0))}}
+				switch h {
+				case 0:
+					d.SubID = uint32(v)
+				case 1:
+					d.Seq = uint32(v)
+				case 2:
+					d.Uptime = uint32(v)
+				}
+				return d
+			}})
+		}
+		for i, n := range []string{"FrameLen", "Stripped"} {
+			i := i
+			cases = append(cases, mc{"raw." + n, func(v uint64) *ref.SFDatagram {
+				r := sfh.Rec("raw", 0)
+				if i == 0 {
+					r.FrameLen = uint32(v)
+				} else {
+					r.Stripped = uint32(v)
+				}
+				return baseDG(false, sfh.FlowSample(2, r))
+			}})
+		}
+		dims := mck.Radix{uint64(len(cases)), uint64(len(magic))}
+		return mck.FuncSpace{N: dims.Size(), F: func(idx uint64, c *mck.Ctx) {
+			d := dims.Digits(idx)
+			runSF(c, cases[d[0]].mk(magic[d[1]]), nil, fmt.Sprintf("%s = %#x, everything else zero / base", cases[d[0]].name, magic[d[1]]))
+		}}
+	}
 	// sflow.frames: 27 frame shapes x every L2/L3/L4 field all-ones alone (+ all-zero, position-unique)
 	spaces["sflow.frames"] = func(tier string) mck.Space {
 		vs := sfh.FrameVariants()
